@@ -434,11 +434,20 @@ fn verify_rebuild(source_path: &Path, target_path: &Path, options: &RebuildOptio
         expected_files.push(&file.name);
     }
 
-    if target_files.len() != expected_files.len() {
+    // When no (listfile) is carried over (the source has none, or its own was
+    // filtered out above), `rebuild_with_files` lets the builder generate one. That
+    // file belongs to the target without being expected from the source.
+    let carries_listfile = expected_files.iter().any(|name| is_listfile(name));
+    let target_count = target_files
+        .iter()
+        .filter(|file| carries_listfile || !is_listfile(&file.name))
+        .count();
+
+    if target_count != expected_files.len() {
         return Err(Error::invalid_format(format!(
             "File count mismatch: expected {}, got {}",
             expected_files.len(),
-            target_files.len()
+            target_count
         )));
     }
 
